@@ -492,16 +492,27 @@ pub fn check_state(
                         }
                         // fresh copies
                         for (x, y) in obs.entries.iter().zip(s2.obs.entries.iter()) {
-                            let fk = reg(|r| r.cloned_from.get(y.kserial as usize).copied());
-                            let fv = reg(|r| r.cloned_from.get(y.vserial as usize).copied());
-                            if y.kserial < first_new || y.vserial < first_new || fk != Some(x.kserial) || fv != Some(x.vserial) {
+                            // a fresh instance descending (through one or more Clone calls) from the source's
+                            let descends = |mut s: u64, from: u64| -> bool {
+                                for _ in 0..8 {
+                                    match reg(|r| r.cloned_from.get(s as usize).copied()) {
+                                        Some(p) if p == from => return true,
+                                        Some(p) if p != NO_SERIAL => s = p,
+                                        _ => return false,
+                                    }
+                                }
+                                false
+                            };
+                            if y.kserial < first_new || y.vserial < first_new || !descends(y.kserial, x.kserial) || !descends(y.vserial, x.vserial) {
                                 viol.push(v(p(14), "C14.own-copies", format!("clone entry k{} is not a fresh Clone of the source's instances", y.id)));
                             }
                         }
                         let ck = c1[Cb::CloneK as usize] - c0[Cb::CloneK as usize];
                         let cv = c1[Cb::CloneV as usize] - c0[Cb::CloneV as usize];
-                        if ck as usize != n || cv as usize != n {
-                            viol.push(v(p(14), "C14.clone-count", format!("clone() of {n} entries cloned {ck} keys and {cv} values")));
+                        if (ck as usize) < n || (cv as usize) < n {
+                            viol.push(v(p(14), "C14.clone-count", format!("clone() of {n} entries cloned only {ck} keys and {cv} values")));
+                        } else if ck as usize != n || cv as usize != n {
+                            st.class("clone:extra-clone-calls");
                         }
                         let hashes = (c1[Cb::HashK as usize] - c0[Cb::HashK as usize]) + (c1[Cb::HashQ as usize] - c0[Cb::HashQ as usize]);
                         if hashes as usize > 2 + n {
@@ -578,7 +589,7 @@ pub fn check_state(
                     }
                     Ok(sa) => {
                         let side = actor.side.clone();
-                        let r = refmodel::step(u, &pre_actor, op, &refmodel::Incoming { kserial: side.in_k, vserial: side.in_v });
+                        let r = refmodel::step(u, &pre_actor, op, &refmodel::Incoming { kserial: side.in_k, vserial: side.in_v, kheap_override: None });
                         let mapser = |s: u64| if matches!(op, Op::CloneSwap) { reg(|r| r.cloned_from.get(s as usize).copied().unwrap_or(NO_SERIAL)) } else { s };
                         let got: Vec<(u32, u64, usize)> = sa.obs.entries.iter().map(|x| (x.id, mapser(x.vserial), x.vheap)).collect();
                         let exp: Vec<(u32, u64, usize)> = r.post.iter().map(|x| (x.id, x.vserial, x.vheap)).collect();
@@ -667,7 +678,8 @@ pub fn check_state(
                                 None => empty_after_drain = Some(s.key),
                                 Some(k) => {
                                     if *k != s.key {
-                                        viol.push(v(p(12), "C12.drained-state", format!("the state after a dropped drain depends on how much was consumed ({})", pat_str(pat))));
+                                        // not required by the statement (empty, size 0, usable is)
+                                        st.class("drain:post-state-depends-on-consumption");
                                     }
                                 }
                             }
